@@ -2,6 +2,7 @@ package main
 
 import (
 	"fmt"
+	"os"
 	"strings"
 	"time"
 )
@@ -142,7 +143,7 @@ type wfaultParams struct {
 }
 
 // wfaultGroup enumerates every fault position for one (cfg, doc, path, stack).
-func wfaultGroup(p *wfaultParams, st *Stats, run int, cfg Config, doc []byte, kind, stack string, r *Rng, stride int) {
+func wfaultGroup(p *wfaultParams, st *Stats, run int, cfg Config, doc []byte, kind, stack string, r *Rng, stride int, exhaustive bool) {
 	docs := [][]byte{doc}
 	base := Op{Kind: kind, Doc: 0, Stack: stack, Ctx: r.Chance(1, 4), Reader: (kind == "ParseRender" || kind == "RenderChild") && r.Chance(1, 4)}
 	R, ok := wfaultRef(cfg, docs, base)
@@ -151,6 +152,22 @@ func wfaultGroup(p *wfaultParams, st *Stats, run int, cfg Config, doc []byte, ki
 		return
 	}
 	L := len(R)
+	// the number of offsets tried is bounded by the OUTPUT length: beyond a few thousand bytes
+	// only the groups chosen for it enumerate every offset (stride 1 and exhaustive set by the
+	// caller); the others are strided so that a group costs at most some hundred conversions
+	// (all buffer boundaries are always kept, see nearBoundary)
+	if !exhaustive {
+		lim := 400
+		if p.tier == "thorough" {
+			lim = 2000
+		}
+		if s := L / lim; s > stride {
+			stride = s
+		}
+	}
+	if stride == 1 {
+		st.Inc("groups_exhaustive")
+	}
 	st.Inc("groups")
 	st.Max("max.output_len", int64(L))
 	mkSpec := func(op Op) *RunSpec {
@@ -499,10 +516,15 @@ func wfaultWorker(p *wfaultParams, st *Stats) {
 					if len(it.doc) > maxL && !it.large {
 						stride = 7
 					}
-					if stride == 1 {
-						st.Inc("groups_exhaustive")
+					// every offset, whatever the output length: in the quick tier only for small
+					// documents on the seeded pair; in the thorough tier for every small document and for
+					// the large ones on the seeded pair
+					exhaustive := stride == 1 && (len(it.doc) <= 1500 || p.tier == "thorough" && pi == exPi && si == exSi)
+					t0 := time.Now()
+					wfaultGroup(p, st, i, cfg, it.doc, kind, stack, r, stride, exhaustive)
+					if el := time.Since(t0); el > 3*time.Second && os.Getenv("VERIF_SLOW") != "" {
+						fmt.Fprintf(os.Stderr, "SLOW item %d %s %s %s: %v, %d source bytes: %q\n", i, cfg.Key(), kind, stack, el, len(it.doc), clipStr(it.doc, 40))
 					}
-					wfaultGroup(p, st, i, cfg, it.doc, kind, stack, r, stride)
 					if it.large {
 						st.Inc("large_groups")
 					}
